@@ -4,15 +4,15 @@
 package solver
 
 import (
-	"os"
-	"sync/atomic"
 	"bufio"
 	"fmt"
 	"io"
+	"os"
 	"os/exec"
 	"regexp"
 	"strconv"
 	"strings"
+	"sync/atomic"
 	"time"
 
 	"verif/engine/sym"
@@ -74,7 +74,6 @@ func New(kind string, f *sym.Factory, timeoutMS int) (*Solver, error) {
 	}
 	return s, nil
 }
-
 
 func (s *Solver) start() error {
 	var cmd *exec.Cmd
@@ -138,6 +137,14 @@ func (s *Solver) Close() {
 }
 
 // restart kills the process and replays the assertion stack.
+// Restart replaces the solver process (only at assertion depth 0).
+func (s *Solver) Restart() {
+	if s.Depth() == 0 && s.nq > 300 {
+		s.restart()
+		s.Stats.Restarts--
+	}
+}
+
 func (s *Solver) restart() {
 	s.Close()
 	s.Stats.Restarts++
